@@ -221,7 +221,7 @@ fn tree_level<TC: ModelCfg>(args: &Args, rep: &Report) {
 pub fn run(args: &Args) -> i32 {
     let rep = Report::new("C01", &args.tier, "exploration");
     let plan = if args.quick() {
-        Plan { base_depth: 2, ext_depth: 2, chains: vec![(17, 1)], shape_depth: 2, cache: CacheCfg::None, par: AzksParallelismConfig::disabled() }
+        Plan { base_depth: 3, ext_depth: 2, chains: vec![(17, 1)], shape_depth: 2, cache: CacheCfg::None, par: AzksParallelismConfig::disabled() }
     } else {
         Plan { base_depth: 3, ext_depth: 3, chains: vec![(33, 2)], shape_depth: 2, cache: CacheCfg::None, par: AzksParallelismConfig::disabled() }
     };
